@@ -13,7 +13,7 @@ RULE = (
     "kernels (Gaussian: scalar variance, isotropic matrix, axis-aligned, correlated with r in {0.2,-0.5, "
     "0.74,0.76,-0.9,0.93,-0.95,0.99}; uniform box x2; a user kernel) x 5 weights (persistence n=1,2; "
     "linear_ramp x2; a user weight) x skew on/off; diagrams: each of 16 points (inside, on a pixel "
-    "border, on the region corner, outside, on the diagonal, negative birth, ...) alone and 6 pairs. "
+    "border, on the region corner, outside, on the diagonal, negative birth, ...) alone and 6 pairs; plus diagrams of 300 and 1100 points on the coarse grid (chunked evaluation paths). "
     "Oracle per pixel: weight x mass of the kernel over the pixel's square by 1-D quadrature of the "
     "conditional law / erf products / exact box overlap; pixel squares from the public ranges and "
     "pixel_size. state = (configuration, diagram); transition = one transform call; non-trivial = "
@@ -98,9 +98,30 @@ def oracle_kernel(kernel):
     return ("uniform", kernel[1], 2 * kernel[1])
 
 
+def big_diagram(n):
+    """n distinct points on a deterministic lattice covering and overlapping the imaged regions."""
+    pts = []
+    k = 0
+    while len(pts) < n:
+        b = -1.5 + 0.11 * (k % 37)
+        p = 0.05 + 0.083 * (k // 37) + 0.013 * (k % 5)
+        pts.append([round(b, 6), round(b + p, 6)])
+        k += 1
+    return pts
+
+
+BIG_SIZES = [300, 1100]
+
+
 def cases(tier):
     for ri, px, ki in itertools.product(range(len(REGIONS)), PIXELS, range(len(KERNELS))):
         yield {"region": ri, "pixel": px, "kernel": ki}
+    # large diagrams (block-wise / chunked evaluation paths): every kernel on the coarse grid
+    for ki in range(len(KERNELS)):
+        for n in BIG_SIZES:
+            if KERNELS[ki][0] == "gauss_corr" and n > 300:
+                continue
+            yield {"region": 1, "pixel": 1.0, "kernel": ki, "big": n}
 
 
 def run_case(case, ctx):
@@ -109,7 +130,11 @@ def run_case(case, ctx):
     (br, pr), px, kernel = REGIONS[case["region"]], case["pixel"], KERNELS[case["kernel"]]
     okern = oracle_kernel(kernel)
     diagrams = [[POINTS[i]] for i in range(len(POINTS))] + [[POINTS[i], POINTS[j]] for i, j in PAIRS]
-    for weight in WEIGHTS:
+    weights = WEIGHTS
+    if "big" in case:
+        diagrams = [big_diagram(case["big"])]
+        weights = [WEIGHTS[0], WEIGHTS[3]]
+    for weight in weights:
         im = PersistenceImager(birth_range=br, pers_range=pr, pixel_size=px, **imager_kwargs(kernel, weight))
         ctx.trans()
         res = tuple(im.resolution)
@@ -121,7 +146,7 @@ def run_case(case, ctx):
                           observed={"resolution": list(res), "birth_range": list(im.birth_range), "pers_range": list(im.pers_range)},
                           expected={"resolution": list(want_res)})
             continue
-        for skew in (True, False):
+        for skew in ((True,) if "big" in case else (True, False)):
             for D in diagrams:
                 A = np.array(D, dtype=float)
                 bp = [(b, d - b) for b, d in D] if skew else [(b, d) for b, d in D]
@@ -129,8 +154,10 @@ def run_case(case, ctx):
                 img = np.asarray(ctx.call(im.transform, A, skew=skew))
                 ref = OI.image_ref(bp, okern, weight, b0, p0, px, res)
                 ctx.valid()
-                wmax = max([1.0] + [abs(OI.weight_value(weight, b, p)) for b, p in bp])
-                ex = {"region": [br, pr], "pixel": px, "kernel": kernel, "weight": weight, "skew": skew, "diagram": D}
+                wmax = max([1.0] + [abs(OI.weight_value(weight, b, p)) for b, p in bp]) * max(1.0, len(bp) / 20.0)
+                ex = {"region": [br, pr], "pixel": px, "kernel": kernel, "weight": weight, "skew": skew, "diagram": D if len(D) <= 4 else "big_diagram(%d)" % len(D)}
+                if len(D) > 4:
+                    ctx.nontriv("large_diagram_%d_points" % len(D))
                 if img.shape != ref.shape:
                     ctx.violation("image-shape", "image shape differs from the resolution (birth pixels x persistence pixels)",
                                   observed=list(img.shape), expected=list(ref.shape), extra=ex)
